@@ -396,7 +396,61 @@ def r_distance(ctx):
                 _check_unassigned_raise(ctx, run, where, location)
 
 
+from sa.values import PyDict
+
+
+def _flags_are_never_none(ctx) -> bool:
+    """every value SelectWorkers.__init__ puts into _selection_dict is a z3 Bool made there (so `d.get(w) is None` says exactly
+    that w is not a key)"""
+    runs = runs_of(ctx, Entry("init", cls="SelectWorkers", opaque=OPAQUE))
+    n = 0
+    for run in runs:
+        if run.rejected:
+            continue
+        stores = [ev for ev in run.events_of("store") if ev.data["container"] == A(SELF, "_selection_dict")]
+        d = run.heap.get((SELF, "_selection_dict"))
+        vals = [ev.data["value"] for ev in stores]
+        if isinstance(d, PyDict):
+            vals += [v if isinstance(v, tuple) else None for (_k, v, _l, _g) in d.entries]
+        if not vals or not all(isinstance(v, tuple) and v and v[0] == "z3var" and v[1] == "Bool" for v in vals):
+            return False
+        n += 1
+    return n > 0
+
+
+def _get_as_lookup(items, dicts):
+    """`d.get(k) is None` is `k not in d`, and d.get(k) under `k in d` is d[k] - for the dicts whose values are never None;
+    an asserted conditional `a if c else b` is a under c and b under not c"""
+    def is_get(t):
+        return isinstance(t, tuple) and len(t) == 5 and t[0] == "mcall" and t[2] == "get" and len(t[3]) == 1 and not t[4] and t[1] in dicts
+
+    def tests(t):
+        if is_app(t) and t[1] in ("is", "is not") and len(t) == 4 and t[3] == NONE and is_get(t[2]):
+            inn = app("in", t[2][3][0], t[2][1])
+            return app("not", inn) if t[1] == "is" else inn
+        if is_app(t, "not") and len(t) == 3 and is_app(t[2], "not") and len(t[2]) == 3:
+            return rewrite(t[2][2], tests)
+        return None
+    out = []
+    todo = [(lp, tuple(gs), tm) for lp, gs, tm in items]
+    while todo:
+        lp, gs, tm = todo.pop(0)
+        if isinstance(tm, tuple) and tm and tm[0] == "phi" and len(tm) == 4:
+            todo = [(lp, gs + (tm[1],), tm[2]), (lp, gs + (app("not", tm[1]),), tm[3])] + todo
+            continue
+        gs2 = tuple(norm(rewrite(rewrite(g, tests), tests)) for g in gs)
+        present = {(g[2], g[3]) for g in gs2 if is_app(g, "in") and len(g) == 4}
+
+        def lookups(t):
+            if is_get(t) and (t[3][0], t[1]) in present:
+                return ("idx", t[1], t[3][0])
+            return None
+        out.append((lp, gs2, rewrite(tm, lookups)))
+    return out
+
+
 def r_same_distinct(ctx):
+    never_none = _flags_are_never_none(ctx)
     for cname, rel in (("SameWorkers", lambda a, b: eq(a, b)), ("DistinctWorkers", lambda a, b: Not(And(a, b)))):
         runs = runs_of(ctx, Entry("init", cls=cname, opaque=OPAQUE))
         fails_closed(ctx, "R-RC-RELATION", runs)
@@ -415,7 +469,10 @@ def r_same_distinct(ctx):
                 w2 = elem(L2)
                 spec += [((L,), (app("not", app("in", w, d2)),), Not(("idx", d1, w))),
                          ((L2,), (app("not", app("in", w2, d1)),), Not(("idx", d2, w2)))]
-            compare_groups(ctx, "R-RC-RELATION", where, location, emission_items(own), spec, f"[{describe_config(run)}]")
+            items = emission_items(own)
+            if never_none:
+                items = _get_as_lookup(items, (d1, d2))
+            compare_groups(ctx, "R-RC-RELATION", where, location, items, spec, f"[{describe_config(run)}]")
 
 
 # ---------------------------------------------------------------------------
